@@ -95,7 +95,8 @@ func propagationRule(c *Ctx, rule string, fns []*ssa.Function, inScope func(call
 			}
 			exc := false
 			for _, e := range exceptions {
-				if e.caller == fnName(fn) && e.callee == callee.String() {
+				ecal := resolveRole(c, genPkg, strings.TrimPrefix(e.callee, genPkg+"."))
+				if e.caller == fnName(fn) && (e.callee == callee.String() || (ecal != nil && ecal == callee)) {
 					exc = true
 					c.ok(rule, desc+" [table exception: "+e.reason+"]", "exception table")
 					c.Notes = append(c.Notes, "exception "+cons+": "+e.reason)
@@ -124,7 +125,7 @@ func runC09(c *Ctx) {
 	c09ExceptionPremise(c)
 
 	// io errors of the one writer
-	if gfn := L.fn(genPkg, "Generate"); gfn != nil {
+	if gfn := resolveRole(c, genPkg, "Generate"); gfn != nil {
 		for _, cs := range callsIn(gfn) {
 			if cs.callee == "go/format.Node" || strings.HasPrefix(cs.callee, "invoke io.Writer") || cs.callee == "invoke io.Writer.Write" {
 				if call := cs.value(); call != nil {
@@ -210,7 +211,7 @@ func runC09(c *Ctx) {
 	c09SupplierMap(c, "C09.5")
 
 	// ---- C09.6 safety net in Build
-	if build := L.fn(genPkg, "(*Graph).Build"); build != nil {
+	if build := resolveRole(c, genPkg, "(*Graph).Build"); build != nil {
 		c.seen(fnName(build))
 		okNet := false
 		why := "no test of injector.Return against nil with an error return"
@@ -267,7 +268,7 @@ func siteNames(L *Loaded, cs []callSite) []string {
 // freshly created error (fmt.Errorf without %w / errors.New) lives in createASTTypeExpr.
 func c09ExceptionPremise(c *Ctx) {
 	L := c.L
-	root := L.fn(genPkg, "generateInjectorDecl")
+	root := resolveRole(c, genPkg, "generateInjectorDecl")
 	if root == nil {
 		c.undecided("C09.1", "exception-premise", "generateInjectorDecl not found")
 		return
@@ -313,7 +314,7 @@ func c09ExceptionPremise(c *Ctx) {
 
 func c09Cycle(c *Ctx) {
 	L := c.L
-	ng := L.fn(genPkg, "NewGraph")
+	ng := resolveRole(c, genPkg, "NewGraph")
 	if ng == nil {
 		c.undecided("C09.4", "NewGraph", "function not found")
 		return
@@ -392,10 +393,13 @@ func c09Cycle(c *Ctx) {
 		c.check(ok, "C09.4", "NewGraph:cycle-error-returned", L.pos(d.Pos()), "a detected cycle makes NewGraph fail", why)
 	}
 	// detectCycles searches from every node
-	if det := L.fn(genPkg, "(*Graph).detectCycles"); det != nil {
+	if det := resolveRole(c, genPkg, "(*Graph).detectCycles"); det != nil {
 		c.seen(fnName(det))
 		okAll := false
-		for _, cs := range findCalls(det, "(*"+genPkg+".Graph).dfsCycleDetection") {
+		for _, cs := range callsIn(det) {
+			if !calleeIs(c, cs, genPkg, "(*Graph).dfsCycleDetection") {
+				continue
+			}
 			s := newSym(L, map[string]bool{})
 			for _, t := range s.eval(cs.arg(1)) {
 				if strings.Contains(t, "field:internal/kessoku.Graph.nodes(") {
@@ -418,7 +422,7 @@ func c09Cycle(c *Ctx) {
 		c.undecided("C09.4", "detectCycles", "method not found")
 	}
 	// the DFS reports a back edge: a gray neighbour leads to a non-nil return
-	if dfs := L.fn(genPkg, "(*Graph).dfsCycleDetection"); dfs != nil {
+	if dfs := resolveRole(c, genPkg, "(*Graph).dfsCycleDetection"); dfs != nil {
 		c.seen(fnName(dfs))
 		okGray := false
 		for _, b := range dfs.Blocks {
@@ -448,7 +452,7 @@ func c09Cycle(c *Ctx) {
 // c09SupplierMap: inserts into the type-string -> provider map are guarded by a lookup of the same key.
 func c09SupplierMap(c *Ctx, rule string) {
 	L := c.L
-	ng := L.fn(genPkg, "NewGraph")
+	ng := resolveRole(c, genPkg, "NewGraph")
 	if ng == nil {
 		return
 	}
